@@ -19,8 +19,9 @@ META = {
                   'read/write wrappers, Parameter.__set__/finish and dispatcher.make_update/broadcast_event by a correspondence run '
                   '(sequential histories + labelled scheduled runs) and the Lean monitors judge every implementation trace.',
     'level_note': 'Trusted: Lean kernel + axioms propext/Quot.sound; hypothesis ExportExact (values Python\'s != does not tell apart '
-                  'have the same exported form) is re-tested on every sampled pair; parameter callbacks re-entering the funnel, the '
-                  'explicit timestamp=0 quirk and activation/deactivation boundaries (C08) are not modelled; CPython executes a single '
+                  'have the same exported form) is re-tested on every sampled pair; callbacks re-entering the SAME parameter, callback trees deeper than one follower level, callbacks raising '
+                  'BaseException, callbacks inside the small-step (concurrent) system and activation/deactivation boundaries (C08) '
+                  'are not modelled; CPython executes a single '
                   'attribute store / list append atomically; atomicity is proved for the model\'s lock structure and validated against '
                   'the code by scheduled runs whose label sequence the model must follow.',
     'trusted': [
@@ -30,11 +31,11 @@ META = {
     ],
     'modelled_not_verified': [
         'datatype conversion / validation (oracle tables computed by the real datatypes)',
-        'paramCallbacks (assumed not to re-enter the funnel for the same module)',
+        'what a callback function does (oracle: returns / TypeError / other Exception, optional call of another funnel)',
         'the transport behind connection.send_reply (observed at send_reply)',
     ],
     'assumptions': ['the connection is activated before the history starts and stays activated (boundaries: C08)',
-                    'the clock never returns 0 and an explicit timestamp argument is non-zero'],
+                    'the clock never returns 0'],
 }
 
 TICKS = 8            # clock ticks per second (dyadic, exact in binary64)
@@ -286,9 +287,10 @@ def do_op(m, case, pid, op, errs):
         elif kind == 'assign':
             setattr(m, pn, raw_of(case, pid, op[1]))
         elif kind == 'announce':
-            _, vidx, eidx, validate = op
+            _, vidx, eidx, validate = op[:4]
             value, validate = announce_arg(m.parameters[pn].datatype, case, pid, vidx, eidx, validate)
-            m.announceUpdate(pn, value, None if eidx is None else clone_error(errs[eidx % len(errs)]), validate=validate)
+            kw = {'timestamp': ts_value(op[4], T0)} if len(op) > 4 and op[4] is not None else {}
+            m.announceUpdate(pn, value, None if eidx is None else clone_error(errs[eidx % len(errs)]), validate=validate, **kw)
     except Exception:
         pass
 
@@ -338,7 +340,7 @@ def wire_op(ids, case, pid, op, errs):
         return ['write', ids.vid(pid, raw_of(case, pid, ridx)), checks_ok, wres]
     if kind == 'assign':
         return ['assign', ids.vid(pid, raw_of(case, pid, op[1]))]
-    _, vidx, eidx, validate = op
+    _, vidx, eidx, validate = op[:4]
     value, validate = announce_arg(ids.dts[pid], case, pid, vidx, eidx, validate)
     return ['announce', None if vidx is None else ids.vid(pid, value),
             None if eidx is None else ids.eid(errs[eidx % len(errs)]), bool(validate)]
@@ -603,7 +605,9 @@ def impl_conc(case, errs, tables, policy):
         pairs, ex, bad_law = eq_pairs(ids)
         req = {'p': 'C05', 'k': 'conc', 'eq': pairs, 'conv': conv, 'valid': valid, 'entries': entries,
                'conns': visit_order, 'tick': case['tick'], 'clock': clock0,
-               'progs': [[{'p': pid, 'op': wire_op(ids, case, pid, op, errs)} for pid, op in prog] for prog in case['progs']],
+               'progs': [[{'p': pid, 'op': wire_op(ids, case, pid, op, errs),
+                          'ts': ts_wire(op[4], T0) if op[0] == 'announce' and len(op) > 4 else None}
+                         for pid, op in prog] for prog in case['progs']],
                'labels': labels}
         obs = {'init_x': init_x, 'logs_x': logs_x, 'logs_t': logs_t, 'final': final, 'ex': ex, 'bad_law': bad_law,
                'sched': out, 'unknown': unknown, 'visit_order': visit_order, 'choices': [c[1] for c in s.choices]}
@@ -651,7 +655,10 @@ def gen_conc(rng, big):
         for _ in range(rng.randint(1, 3 if not big else 4)):
             pid = rng.randrange(npar)
             nvalid, nall = pool_size(params[pid]['kind'])
-            prog.append([pid, gen_op(rng, params[pid], min(nvalid, 3), nall, nerr)])
+            op = gen_op(rng, params[pid], min(nvalid, 3), nall, nerr)
+            if op[0] == 'announce' and rng.random() < 0.5:
+                op.append(rng.choice(TS_ARGS))
+            prog.append([pid, op])
         progs.append(prog)
     return {'params': params, 'mw': rng.choice(MW), 'gw': rng.choice(GW), 'nconn': rng.choice([1, 2, 2, 3]),
             'tick': rng.choice([0, 1, 1, 3, 40]), 'progs': progs}
@@ -742,6 +749,277 @@ def gen_builtin(rng, which):
     return {'which': which, 'gw': rng.choice([0.0, 1.0, 4.0]), 'ops': ops}
 
 
+
+# ----------------------------------------------------------------------------------------
+# followers: modules attached with registerCallbacks, and the timestamp argument
+# ----------------------------------------------------------------------------------------
+FEXC = ['ValueError', 'KeyError', 'TypeError', 'ZeroDivisionError', 'HardwareError', 'RuntimeError']
+
+
+def _exc(name):
+    if name == 'HardwareError':
+        from frappy.errors import HardwareError
+        return HardwareError
+    return {'ValueError': ValueError, 'KeyError': KeyError, 'TypeError': TypeError,
+            'ZeroDivisionError': ZeroDivisionError, 'RuntimeError': RuntimeError}[name]
+
+
+def follower_outcome(fs, triggers, obj, is_err):
+    """what the generated callback of follower `fs` does with a value (or an error): (outcome, nested)
+    nested: None | 'value' | 'error'.  The same function drives the real callback and fills the oracle table."""
+    bad = 'typeError' if fs['exc'] == 'TypeError' else 'other'
+    if fs['kind'] == 'autoupdate':
+        return 'ok', ('error' if is_err else 'value')
+    if is_err:
+        if fs['kind'] == 'update_noerr':
+            return 'typeError', None          # update_p(value) called with (value, err)
+        if fs['on_err'] == 'raise':
+            return bad, None
+        return 'ok', ('error' if fs['target'] else None)
+    hit = False
+    for t in triggers:
+        try:
+            hit = hit or not (obj != t)
+        except Exception:
+            pass
+    if hit:
+        return bad, None
+    return 'ok', ('value' if fs['target'] else None)
+
+
+def make_follower_class(dt, default, fs, triggers):
+    from frappy.modules import Module
+    from frappy.params import Parameter
+    attrs = {'p': Parameter('follower', dt, default=default, readonly=False, update_unchanged=fs['uu'])}
+    exc = _exc(fs['exc'])
+
+    def body(self, value, err):
+        oc, nested = follower_outcome(fs, triggers, value, err is not None)
+        if oc != 'ok':
+            raise exc('callback')
+        if nested == 'error':
+            self.announceUpdate('p', None, err)
+        elif nested == 'value':
+            self.p = value
+    if fs['kind'] == 'update':
+        def update_p(self, value, err=None):
+            body(self, value, err)
+        attrs['update_p'] = update_p
+    elif fs['kind'] == 'update_noerr':
+        def update_p(self, value):
+            body(self, value, None)
+        attrs['update_p'] = update_p
+    return type('Follower', (Module,), attrs)
+
+
+def build_follow(case, clock):
+    import frappy.modulebase as mb
+    from vlib.node import Node
+    cat = catalogue()
+    ps = case['params'][0]
+    factory, valid, _ = cat[ps['kind']]
+    dt = factory()
+    cls = make_class({'p': (dt, NODEFAULT if ps['nodefault'] else valid[0], ps['uu'], ps['has_write'], ps['has_check'])})
+    cfg = {'m': {'cls': cls, 'description': 'source'}}
+    if case['mw'] is not None:
+        cfg['m']['omit_unchanged_within'] = case['mw']
+    for j, fs in enumerate(case['followers']):
+        fdt = factory()
+        triggers = []
+        for k in fs['raise_idx']:
+            try:
+                triggers.append(dt(valid[k % len(valid)]))
+            except Exception:
+                pass
+        cfg[f'f{j + 1}'] = {'cls': make_follower_class(fdt, valid[0], fs, triggers), 'description': 'follower'}
+    mb.time = clock
+    node = Node(cfg, omit_unchanged_within=case['gw'])
+    m = node.modules['m']
+    m.script = {}
+    mods = [m] + [node.modules[f'f{j + 1}'] for j in range(len(case['followers']))]
+    for j, fs in enumerate(case['followers']):
+        m.registerCallbacks(mods[j + 1], autoupdate=['p'] if fs['kind'] == 'autoupdate' else ())
+    return node, mods
+
+
+def fspec_pid(spec):
+    if spec == 'm:_p':
+        return 0
+    if spec.startswith('f') and spec.endswith(':_p') and spec[1:-3].isdigit():
+        return int(spec[1:-3])
+    return None
+
+
+def cache_obs_of(ids, mod, pid):
+    po = mod.parameters['p']
+    ts = int(round((po.timestamp or 0) * TICKS))
+    if po.readerror:
+        e = ['e', ids.eid_key(po.readerror.name, str(po.readerror))]
+        return e, e, ts
+    return ['v', ids.vid(pid, po.value)], ['v', ids.xid(pid, po.value)], ts
+
+
+TS_ARGS = [None, None, None, 0, 0.0, 'nan', 'inf', '-inf', 'past', 'future']
+
+
+def ts_value(ts, now):
+    if ts in ('nan', 'inf', '-inf'):
+        return float(ts)
+    if ts == 'past':
+        return (now - 24) / TICKS
+    if ts == 'future':
+        return (now + 80) / TICKS
+    return ts
+
+
+def ts_wire(ts, now):
+    if ts in ('nan', 'inf', '-inf'):
+        return 'nonfinite'
+    if ts == 'past':
+        return now - 24
+    if ts == 'future':
+        return now + 80
+    return None if ts is None else 0
+
+
+def impl_follow(case, errs, tables):
+    import frappy.modulebase as mb
+    saved = mb.time
+    try:
+        n = 1 + len(case['followers'])
+        clock = Clock(T0)
+        node, mods = build_follow(case, clock)
+        dts = {pid: mods[pid].parameters['p'].datatype for pid in range(n)}
+        ids = Ids(dts)
+        ps = case['params'][0]
+        _, nall = pool_size(ps['kind'])
+        conv, valid = oracle_tables(ids, 0, dts[0], [raw_of(case, 0, i) for i in range(nall)])
+        for pid in range(n):
+            ids.vid(pid, mods[pid].parameters['p'].value)
+        for e in errs:
+            ids.eid(e)
+        conn = node.connect()
+        node.request(conn, 'activate', None, None)
+        conn.msgs.clear()
+        m = mods[0]
+
+        def entry(pid):
+            po = mods[pid].parameters['p']
+            uu = ps['uu'] if pid == 0 else case['followers'][pid - 1]['uu']
+            return {'value': ids.vid(pid, po.value),
+                    'err': None if not po.readerror else ids.eid_key(po.readerror.name, str(po.readerror)),
+                    'ts': int(round((po.timestamp or 0) * TICKS)), 'uu': uu_model(uu, tables),
+                    'mw': window_ticks(case['mw']) if pid == 0 else None, 'gw': window_ticks(case['gw'])}
+        entries = [entry(pid) for pid in range(n)]
+        real_windows = [int(round(mods[pid].parameters['p'].omit_unchanged_within * TICKS)) for pid in range(n)]
+        init = [cache_obs_of(ids, mods[pid], pid) for pid in range(n)]
+        now = T0
+        ops, outs = [], []
+        for step in case['ops']:
+            dt, op = step[0], step[1]
+            ts = step[2] if len(step) > 2 else None
+            now += dt
+            clock.ticks = now
+            ops.append({'now': now, 'ts': ts_wire(ts, now) if op[0] == 'announce' else None,
+                        'op': wire_op(ids, case, 0, op, errs)})
+            if op[0] == 'announce' and ts is not None:
+                _, vidx, eidx, validate = op
+                value, validate = announce_arg(dts[0], case, 0, vidx, eidx, validate)
+                try:
+                    m.announceUpdate('p', value, None if eidx is None else clone_error(errs[eidx % len(errs)]),
+                                     timestamp=ts_value(ts, now), validate=validate)
+                except Exception:
+                    pass
+            else:
+                do_op(m, case, 0, op, errs)
+            msgs, other = [], []
+            for msg in conn.msgs:
+                pid = fspec_pid(msg[1])
+                if pid is None or msg[0] not in ('update', 'error_update'):
+                    other.append(msg[0])
+                else:
+                    ve, t = msg_obs(ids, pid, msg)
+                    msgs.append([pid, ve, t])
+            conn.msgs.clear()
+            outs.append({'msgs': msgs, 'other': other, 'caches': [cache_obs_of(ids, mods[pid], pid) for pid in range(n)]})
+        # oracle table of the callbacks: for every value the source can hold and every error
+        followers = []
+        src_vals = [(i, obj) for i, (pid, obj) in enumerate(list(ids.vobj)) if pid == 0]
+        for j, fs in enumerate(case['followers']):
+            q = j + 1
+            triggers = []
+            for k in fs['raise_idx']:
+                cat_valid = catalogue()[ps['kind']][1]
+                try:
+                    triggers.append(dts[0](cat_valid[k % len(cat_valid)]))
+                except Exception:
+                    pass
+            rows = []
+            for i, obj in src_vals:
+                oc, nested = follower_outcome(fs, triggers, obj, False)
+                ne = None
+                if nested == 'value':
+                    c, v = oracle_tables(ids, q, dts[q], [obj])
+                    conv += c
+                    valid += v
+                    ne = ['value', ids.vid(q, obj), True]
+                rows.append([['v', i], oc, ne])
+            for (name, text), eid in list(ids.e.items()):
+                oc, nested = follower_outcome(fs, triggers, None, True)
+                rows.append([['e', eid], oc, ['error', eid] if nested == 'error' else None])
+            followers.append({'q': q, 'rows': rows})
+        pairs, ex, bad_law = eq_pairs(ids)
+        req = {'p': 'C05', 'k': 'seqm', 'eq': pairs, 'conv': conv, 'valid': valid, 'entries': entries,
+               'followers': followers, 'ops': ops}
+        return {'req': req, 'outs': outs, 'init': init, 'ex': ex, 'bad_law': bad_law, 'real_windows': real_windows, 'n': n}
+    finally:
+        mb.time = saved
+
+
+def compare_follow(run, ans):
+    if ans['windows'] != run['real_windows']:
+        return f'windows: model {ans["windows"]} impl {run["real_windows"]}'
+    if ans['init'] != [i[0] for i in run['init']]:
+        return f'initial entries: model {ans["init"]} impl {[i[0] for i in run["init"]]}'
+    for i, (mo, io) in enumerate(zip(ans['outs'], run['outs'])):
+        mm = [[pid, ex_ve(run['ex'], ve), t] for pid, ve, t in mo['msgs']]
+        if mm != io['msgs']:
+            return f'op {i}: messages model {mm} impl {io["msgs"]}'
+        if mo['caches'] != [c[0] for c in io['caches']] or mo['ts'] != [c[2] for c in io['caches']]:
+            return f'op {i}: caches model {mo["caches"]}@{mo["ts"]} impl {[(c[0], c[2]) for c in io["caches"]]}'
+        if io['other']:
+            return f'op {i}: unexpected messages {io["other"]}'
+    return None
+
+
+def judge_reqs_follow(run):
+    return [{'p': 'C05', 'k': 'judge_seq', 'init': run['init'][pid][1],
+             'trace': [{'msgs': [ve for q, ve, _ in o['msgs'] if q == pid], 'cache': o['caches'][pid][1]}
+                       for o in run['outs']]} for pid in range(run['n'])]
+
+
+def gen_follow(rng, big):
+    case = gen_seq(rng, big)
+    nvalid, _ = pool_size(case['params'][0]['kind'])
+    case['followers'] = []
+    for _ in range(rng.choice([0, 1, 1, 1, 2, 2])):
+        case['followers'].append({'kind': rng.choice(['update', 'update', 'update_noerr', 'autoupdate']),
+                                  'exc': rng.choice(FEXC), 'on_err': rng.choice(['pass', 'pass', 'raise']),
+                                  'target': rng.random() < 0.7, 'uu': rng.choice(UU),
+                                  'raise_idx': rng.sample(range(nvalid), rng.choice([0, 1, 1, 2]))})
+    for step in case['ops']:
+        if step[1][0] == 'announce' and rng.random() < 0.5:
+            step.append(rng.choice(TS_ARGS))
+    return case
+
+
+def follow_fails(ctx, case, errs, tables):
+    run = impl_follow(case, errs, tables)
+    for pid, jd in enumerate(ctx.driver.batch(judge_reqs_follow(run))):
+        if jd.get('bad') is not None:
+            return [pid] + jd['bad']
+    return None
+
 # ----------------------------------------------------------------------------------------
 def _tables(ctx):
     return ctx.driver.batch([{'p': 'C05', 'k': 'tables'}])[0]
@@ -772,11 +1050,11 @@ def run(ctx):
     # ---------------- sequential ----------------
     seq_cases = []
     cdir = os.path.join(ctx.verif, 'corpus', 'C05')
-    conc_corpus, builtin_corpus = [], []
+    conc_corpus, builtin_corpus, follow_corpus = [], [], []
     if os.path.isdir(cdir):
         for fn in sorted(os.listdir(cdir)):
             c = json.load(open(os.path.join(cdir, fn)))
-            {'seq': seq_cases, 'conc': conc_corpus, 'builtin': builtin_corpus}[c['kind']].append(c['case'])
+            {'seq': seq_cases, 'conc': conc_corpus, 'builtin': builtin_corpus, 'follow': follow_corpus}[c['kind']].append(c['case'])
     for _ in range(ctx.budget(2000, 10000)):
         seq_cases.append(gen_seq(rng, big))
     shrunk = 0
@@ -828,6 +1106,54 @@ def run(ctx):
                                        'what': f'history on a {ps["kind"]} parameter (update_unchanged={ps["uu"]}): operation '
                                                f'{bad[0]} breaks "{bad[1]}": ops={small["ops"]}',
                                        'detail': {'original': case}})
+
+    # ---------------- followers attached with registerCallbacks; explicit time stamps ----------------
+    fcases = list(follow_corpus)
+    for _ in range(ctx.budget(600, 6000)):
+        fcases.append(gen_follow(rng, big))
+    for start in range(0, len(fcases), CH):
+        chunk = fcases[start:start + CH]
+        runs = [impl_follow(case, errs, tables) for case in chunk]
+        reqs, pos = [], []
+        for r in runs:
+            pos.append(len(reqs))
+            reqs.append(r['req'])
+            reqs += judge_reqs_follow(r)
+        answers = ctx.driver.batch(reqs)
+        for case, r, at in zip(chunk, runs, pos):
+            ans, jds = answers[at], answers[at + 1: at + 1 + r['n']]
+            if any('driver_error' in a for a in [ans] + jds):
+                raise RuntimeError(f'driver error: {ans} {jds} {json.dumps(r["req"])[:600]}')
+            res.evaluations += 1
+            res.traces += 1
+            res.count('follow.followers=%d' % len(case['followers']))
+            for fs in case['followers']:
+                res.count('follow.kind=' + fs['kind'])
+            escaped = sum(1 for f in r['req']['followers'] for row in f['rows'] if row[1] != 'ok')
+            nested = sum(1 for o in r['outs'] for q, _, _ in o['msgs'] if q > 0)
+            res.count('follow.raising-callback-possible=' + ('yes' if escaped else 'no'))
+            res.count('follow.nested-messages=' + ('0' if nested == 0 else '1+'))
+            if escaped and nested:
+                res.nontriv(case)
+            if ctx.model_ok:
+                diff = compare_follow(r, ans)
+                if diff:
+                    res.disagreements.append({'case': {'kind': 'follow', 'case': case}, 'model': diff, 'impl': 'see replay'})
+            for pid, jd in enumerate(jds):
+                if jd['bad'] is not None:
+                    small = case
+                    if shrunk < 6:
+                        shrunk += 1
+                        ops = ddmin(case['ops'], lambda o, case=case: follow_fails(ctx, dict(case, ops=o), errs, tables))
+                        small = dict(case, ops=ops)
+                    bad = (follow_fails(ctx, small, errs, tables) if small is not case else None) or [pid] + jd['bad']
+                    who = 'source' if bad[0] == 0 else f'follower {bad[0]}'
+                    res.violations.append({'sig': f'C05:follow:{"source" if bad[0] == 0 else "follower"}:{bad[2]}',
+                                           'case': {'kind': 'follow', 'case': small},
+                                           'what': f'{len(case["followers"])} follower module(s) {[f["kind"] + "/" + f["exc"] for f in case["followers"]]} '
+                                                   f'attached with registerCallbacks to a {case["params"][0]["kind"]} parameter: '
+                                                   f'operation {bad[1]} breaks "{bad[2]}" for the {who} parameter: ops={small["ops"]}'})
+                    break
 
     # ---------------- framework drivers that store into the cache themselves ----------------
     bcases = list(builtin_corpus)
@@ -923,7 +1249,7 @@ def replay(ctx, rp):
     errs = error_pool()
     tables = _tables(ctx)
     case = rp['case']
-    if 'kind' not in case and rp.get('kind') in ('seq', 'builtin', 'conc'):
+    if 'kind' not in case and rp.get('kind') in ('seq', 'builtin', 'conc', 'follow'):
         case = {'kind': rp['kind'], 'case': case}      # a corpus file
     if case['kind'] == 'seq':
         r = impl_seq(case['case'], errs, tables)
@@ -934,6 +1260,15 @@ def replay(ctx, rp):
         print('model :', compare_seq(r, ans) or 'agrees with the implementation')
         print('judge :', jd)
         return 0 if jd.get('bad') is None else 1
+    if case['kind'] == 'follow':
+        r = impl_follow(case['case'], errs, tables)
+        answers = ctx.driver.batch([r['req']] + judge_reqs_follow(r))
+        print('case  :', json.dumps(case['case']))
+        for i, o in enumerate(r['outs']):
+            print(f'  op {i}: {case["case"]["ops"][i]} -> msgs {o["msgs"]} caches {[c[1] for c in o["caches"]]}')
+        print('model :', compare_follow(r, answers[0]) or 'agrees with the implementation')
+        print('judge :', answers[1:])
+        return 0 if all(a.get('bad') is None for a in answers[1:]) else 1
     if case['kind'] == 'builtin':
         r = impl_builtin(case['case'])
         jd = ctx.driver.batch([{'p': 'C05', 'k': 'judge_seq', 'init': r['init_x'],
